@@ -235,7 +235,8 @@ fn cmd_run(args: &[String]) -> i32 {
     if let Some(f) = &res.failure {
         // confirm from the explicit op list, then minimise
         let mut st = Stats::default();
-        let (o, _) = execute(&env, &f.plan, &mut st, exec_opts(scenario, false));
+        let first_opts = if f.violation.clause == "time-bound" { exec_opts_slow(scenario, false, 1, 2) } else { exec_opts(scenario, false) };
+        let (o, _) = execute(&env, &f.plan, &mut st, first_opts);
         let confirmed = match &o.end {
             End::Violation(v) => v.clause == f.violation.clause,
             _ => false,
@@ -254,7 +255,7 @@ fn cmd_run(args: &[String]) -> i32 {
             let mut ok = 0;
             for _ in 0..3 {
                 let mut st = Stats::default();
-                let (o, _) = execute(&env, &m.plan, &mut st, exec_opts(scenario, false));
+                let (o, _) = execute(&env, &m.plan, &mut st, exec_opts_slow(scenario, false, 1, 4));
                 if matches!(&o.end, End::Violation(v) if v.clause == "time-bound") {
                     ok += 1;
                 }
@@ -711,7 +712,8 @@ fn cmd_replay(args: &[String]) -> i32 {
     let mut st = Stats::default();
     watch::set_worker(0);
     watch::begin_run(rep.run_index);
-    let (o, log) = execute(&env, &rep.plan, &mut st, exec_opts(rep.plan.scenario, !quiet));
+    let opts = if rep.clause == "time-bound" { exec_opts_slow(rep.plan.scenario, !quiet, 1, 4) } else { exec_opts(rep.plan.scenario, !quiet) };
+    let (o, log) = execute(&env, &rep.plan, &mut st, opts);
     for l in &log {
         println!("{}", l);
     }
